@@ -376,7 +376,11 @@ def run(ctx):
                                      ([lit('/item/'), W('id'), lit('/view')], [lit('/item/'), W('id', 'int'), lit('/edit')], ['/item/42/edit']),
                                      ([lit('/price/'), W('v', 'float'), lit('/net')], [lit('/price/'), W('v'), lit('/gross')], ['/price/1.50/gross', '/price/x/gross']),
                                      ([lit('/u/'), W('n', 're', '[a-c]+'), lit('/a')], [lit('/u/'), W('n'), lit('/b')], ['/u/abc/b', '/u/zzz/b']),
-                                     ([lit('/u/'), W('n', 'path'), lit('/a')], [lit('/u/'), W('n'), lit('/b')], ['/u/x/b'])):
+                                     ([lit('/u/'), W('n', 'path'), lit('/a')], [lit('/u/'), W('n'), lit('/b')], ['/u/x/b']),
+                                     # a literal branch that captures a value and then dead-ends, so that the lookup falls back to the rule under test
+                                     ([lit('/new/'), W('k', 'int'), lit('/edit')], [lit('/'), W('name'), lit('/'), W('n', 'int'), lit('/view')], ['/new/5/view', '/old/5/view']),
+                                     ([lit('/a/'), W('x'), lit('/'), W('y'), lit('/end')], [lit('/'), W('p'), lit('/'), W('q'), lit('/'), W('r'), lit('/fin')], ['/a/1/2/fin']),
+                                     ([lit('/s/'), W('f', 'float'), lit('/x')], [lit('/'), W('t'), lit('/'), W('u', 'float'), lit('/y')], ['/s/1.5/y'])):
             for pth in paths:
                 for spell in (0, 1):
                     ctx.guarded(check_case, {'ast': R._fix(second), 'choice': [1], 'spell': spell, 'path': pth, 'siblings': [R._fix(first)]})
